@@ -243,6 +243,28 @@ pub fn render_frag(r: &R, fr: FnRef, sel: &str, header: &str) -> Result<(String,
                 None => return Err(format!("lost anchor: let `{}` has no initialiser", name)),
             }
         }
+        "letclosure" => {
+            // letclosure <name>[#n] : the body of a closure bound by `let <name> = [move] |params| body`
+            let (name, ord) = parse_ord(rest);
+            let mut lf = LetFinder { name: name.clone(), hits: vec![] };
+            lf.visit_block(block);
+            let l = lf.hits.get(ord).ok_or_else(|| format!("lost anchor: let `{}`#{} not found", name, ord))?;
+            let cl = match l.init.as_ref().map(|i| &*i.expr) {
+                Some(Expr::Closure(c)) => c,
+                _ => return Err(format!("lost anchor: let `{}` is not bound to a closure", name)),
+            };
+            for (k, p) in cl.inputs.iter().enumerate() {
+                let p0 = match p {
+                    Pat::Type(pt) => &*pt.pat,
+                    other => other,
+                };
+                match p0 {
+                    Pat::Ident(_) | Pat::Wild(_) => {}
+                    other => lets.push(format!("let {} = qx_a{};", r.pat(other), k)),
+                }
+            }
+            &cl.body
+        }
         "tail" => match block.stmts.last() {
             Some(syn::Stmt::Expr(e, None)) => e,
             _ => return Err("lost anchor: function has no tail expression".into()),
@@ -252,7 +274,7 @@ pub fn render_frag(r: &R, fr: FnRef, sel: &str, header: &str) -> Result<(String,
     // free-variable discipline
     let params: HashSet<String> = header_params(header).into_iter().collect();
     let mut bound_by_lets = vec![];
-    if let "closure" = kind {
+    if kind == "closure" || kind == "letclosure" {
         // names bound by destructuring lets
         for l in &lets {
             if let Ok(syn::Stmt::Local(loc)) = syn::parse_str::<syn::Stmt>(l) {
